@@ -3,7 +3,7 @@ PROPS['C21'] = dict(
     target='Props/C21',
     theorems=['C21_listing_is_sorted_permutation', 'C21_next_enumerates', 'C21_previous_is_page_before', 'C21_previous_walks_back', 'C21_has_more_iff',
               'C21_offset_next_enumerates_partial', 'C21_offset_next_enumerates_refuted', 'C21_offset_previous_is_page_before', 'C21_offset_has_more_iff'],
-    ties=[dict(name='TIE-C paginators', vh='pagesyn', model='pages', n=dict(quick=3000, thorough=300000), kinds=['C21']),
+    ties=[dict(name='TIE-C paginators', vh='pagesyn', model='pages', n=dict(quick=3000, thorough=100000), kinds=['C21']),
           dict(name='TIE-D listings', vh='pages', model='pages', n=dict(quick=50, thorough=2500),
                args=dict(quick=['-maxops', '32'], thorough=['-maxops', '40']), kinds=['C21'], timeout=dict(quick=600, thorough=6000))],
     rule='TIE-C: random duplicate-free key sets of 0..12 keys (small, negative, above 2^63, microsecond timestamps) in a pgsem table; arbitrary column queries '
